@@ -717,8 +717,8 @@ class Interp:
         if d.endswith("Default::default") and not args:
             return sp.Integer(0)
         cands = self.F.by_path.get(d, []) if hasattr(self.F, "by_path") else []
-        if len(cands) == 1 and not cands[0].get("impl_self"):
-            return self.call_crate_fn(cands[0], list(args), n)
+        if len(cands) == 1 and (not cands[0].get("impl_self") or not (cands[0]["params"] and cands[0]["params"][0].get("name") == "self")) and not cands[0].get("impl_trait"):
+            return self.call_crate_fn(cands[0], list(args), n)           # a free function, or an associated function without receiver (`Self::blank`)
         if len(args) == 1:
             # a unary method passed by path (`.filter(ComplexField::is_finite)`, `.map(N::abs)`)
             if last in MATH_METHODS:
@@ -838,6 +838,28 @@ class Interp:
                     return Variant("Ok", list(v_.args)) if some else Variant("Err", [self.ev(n["args"][0])])
                 if name == "ok_or_else":
                     return Variant("Ok", list(v_.args)) if some else Variant("Err", [self.apply_closure(ClosureVal(n["args"][0], None), [], n)])
+        if name == "clone_from" and len(n["args"]) == 1:
+            self.assign(self.through_ref(n["recv"]) if peel(n["recv"]).get("k") == "Local" and isinstance(self.env.get(peel(n["recv"]).get("id")), PlaceRef) and False else n["recv"],
+                        self.ev(n["args"][0]), n)          # a.clone_from(&b)  ==  a = b.clone()
+            return None
+        if name == "map" and len(n["args"]) == 1 and ("result::Result" in (n.get("def") or "") or "option::Option" in (n.get("def") or "")):
+            # the lin-form domains follow the success path of a symbolic Option / Result (as for `?`): `x.map(f)` is f(x) there
+            v0 = self.ev(n["recv"])
+            if isinstance(v0, Variant) and v0.name in ("Ok", "Some", "Err", "None"):
+                if v0.name in ("Err", "None"):
+                    return v0
+                a0 = n["args"][0]
+                ap = peel(a0)
+                fv = ClosureVal(a0, None) if a0.get("k") == "Closure" else (FnVal(ap) if ap.get("k") == "Path" and ap.get("dk", "").startswith(("Fn", "AssocFn", "Ctor")) else None)
+                if fv is not None and len(v0.args) == 1:
+                    return Variant(v0.name, [self.apply_closure(fv, [v0.args[0]], n)])
+            if not isinstance(v0, (Variant, CondOpt)) and not type(v0).__name__ in ("OptVal", "ResVal"):
+                a0 = n["args"][0]
+                ap = peel(a0)
+                if a0.get("k") == "Closure":
+                    return self.apply_closure(ClosureVal(a0, None), [v0], n)
+                if ap.get("k") == "Path" and ap.get("dk", "").startswith(("Fn", "AssocFn", "Ctor")):
+                    return self.apply_closure(FnVal(ap), [v0], n)
         if name == "contains" and len(n["args"]) == 1:
             rp = n["recv"]
             while isinstance(rp, dict) and rp.get("k") in ("Paren", "DropTemps", "Use", "Ref"):
